@@ -13,6 +13,10 @@ Driver of C18. Two case kinds (payload, space separated):
   line/linepos in MarshalJSON; X: `e.line`, `e.pos` of the except object) and, with `calloff`, the
   line of the call token the error passed through (outermost stack trace entry).
 
+* `B <src-hex> <markoff>` — a break point set (by the harness, on the real debugger) at the true
+  line of a marked statement; result: `pos,line` of the node the thread is suspended on = the
+  marked token.
+
 * `S <ref-hex> <var-hex> <tree>` — statement separation: `var` is the comment-free program `ref`
   with comments put into its gaps; result: the canonical tree (or parse error kind) the real
   parser must produce for `var` = the one it produced for `ref` (shipped in the payload),
@@ -221,6 +225,18 @@ def sepCase (ref var : List Nat) (tree : String) : String :=
     let comments := (lex var).toList.any fun t => t.id = tPRECOMMENT || t.id = tPOSTCOMMENT
     tree ++ (if comments && (sameLineRel tv).any (!·) then "\tnt=1" else "")
 
+/-- `B` cases: the thread must be suspended on the node of the marked token: `pos,line` of the
+    model token that starts at the marked offset (the break point was set at the TRUE line of that
+    offset by the harness; the line clause is what makes the two meet). -/
+def breakCase (src : List Nat) (off : Nat) : String :=
+  let inp := src.toArray
+  let toks := (lex src).toList
+  match toks.find? fun t => t.pos = off && t.id != tEOF && t.id != tPRECOMMENT && t.id != tPOSTCOMMENT with
+  | none => "no-token-at-offset"
+  | some t =>
+    s!"{t.pos},{t.line}" ++ (if t.line > 1 then "\tnt=1" else "")
+      ++ (if t.line = lineOf inp off then "" else s!"\tkf=unexplained-position\tspec={off},{lineOf inp off}")
+
 def runCase (payload : String) : String :=
   match payload.splitOn " " with
   | ["L", h] => match hexDecode h with
@@ -232,6 +248,9 @@ def runCase (payload : String) : String :=
   | ["E", k, h, off, calloff] => match hexDecode h with
     | some src => errCase k src off (some calloff)
     | none => "bad-payload"
+  | ["B", h, off] => match hexDecode h, off.toNat? with
+    | some src, some o => breakCase src o
+    | _, _ => "bad-payload"
   | ["S", r, v, tree] => match hexDecode r, hexDecode v with
     | some r, some v => sepCase r v tree
     | _, _ => "bad-payload"
